@@ -165,6 +165,15 @@ ints = st.one_of(
 small_ints = st.one_of(st.integers(-2, 70), st.sampled_from(BOUNDARY))
 
 
+# a block long enough for a two-byte length prefix, from a small pool of
+# concrete operations (cheap to generate)
+_LONG_POOL = [
+    {"cls": "OpDeref", "vals": []}, {"cls": "OpBReg", "vals": [7, -8]}, {"cls": "OpConst1U", "vals": [5]},
+    {"cls": "OpConst2S", "vals": [-300]}, {"cls": "OpPlusUConst", "vals": [300]}, {"cls": "OpAnd", "vals": []},
+]
+_LONG_BLOCK = st.lists(st.sampled_from(_LONG_POOL), min_size=50, max_size=90)
+
+
 def _obj(tab, depth):
     classes = sorted(TABLE_OF[tab])
 
@@ -179,8 +188,7 @@ def _obj(tab, depth):
                 else:
                     # now and then a block long enough for a multi-byte
                     # length prefix
-                    fields.append(st.one_of(*([st.lists(_obj("op", depth - 1), max_size=4)] * 7),
-                                            st.lists(_valid_obj("op", 0), min_size=40, max_size=90)))
+                    fields.append(st.one_of(*([st.lists(_obj("op", depth - 1), max_size=4)] * 15), _LONG_BLOCK))
             else:
                 fields.append(ints)
         return st.fixed_dictionaries(
@@ -220,8 +228,7 @@ def _valid_obj(tab, depth):
         fields = []
         for k in _kinds(tab, cls):
             if k == R.BLOCK:
-                fields.append(st.one_of(*([st.lists(_valid_obj("op", depth - 1), max_size=3)] * 7),
-                                        st.lists(_valid_obj("op", 0), min_size=40, max_size=90))
+                fields.append(st.one_of(*([st.lists(_valid_obj("op", depth - 1), max_size=3)] * 15), _LONG_BLOCK)
                               if depth > 0 else st.just([]))
             else:
                 fields.append(rng(k))
@@ -664,11 +671,7 @@ def _exhaustive_chunk(args):
         doms = []
         for k in kinds:
             if k == R.BLOCK:
-                # (also blocks whose ULEB128 length prefix needs two and
-                # three bytes: 127/128 and 16383/16384 are the boundaries)
-                nop = {"cls": "OpDeref", "vals": []}   # any one-byte operation
-                doms.append([[], [{"cls": "OpBReg", "vals": [7, -8]}, {"cls": "OpDeref", "vals": []}],
-                             [nop] * 127, [nop] * 128, [nop] * 16384])
+                doms.append([[], [{"cls": "OpBReg", "vals": [7, -8]}, {"cls": "OpDeref", "vals": []}]])
             else:
                 doms.append(_field_values(k, 8))
         if len(doms) == 2 and all(len(d) > 100 for d in doms):
@@ -683,6 +686,15 @@ def _exhaustive_chunk(args):
                     spec = {"k": "obj", "tab": tab, "order": order, "ptr": ptr,
                             "tail": [0x80], "obj": {"cls": cls, "vals": list(vals)}}
                     rec.run(me, spec)
+        # blocks whose ULEB128 length prefix needs two and three bytes
+        # (127/128 and 16383/16384 are the boundaries), other operands fixed
+        if R.BLOCK in kinds:
+            one = {"cls": "OpDeref", "vals": []}   # any one-byte operation
+            for n in (127, 128, 16383, 16384):
+                vals = [[one] * n if k == R.BLOCK else 1 for k in kinds]
+                for order, ptr in (("little", 8), ("big", 4)):
+                    rec.run(me, {"k": "obj", "tab": tab, "order": order, "ptr": ptr,
+                                 "tail": [0x80], "obj": {"cls": cls, "vals": vals}})
     # all 256 first bytes x boundary-valued reference encodings + raw tails
     names = R.opcode_names(tab)
     if classes and classes[0] == sorted(TABLE_OF[tab])[0]:
